@@ -10,6 +10,7 @@ Cases == JsonDeserialize(IOEnv.CASES)
 ReadVerdict(c) ==
   IF c.exc # "" THEN "C19.read-raised-" \o c.exc
   ELSE IF c.results # Ref(c.items, c.ops) THEN "C19.result-differs-from-file-over-concatenation"
+  ELSE IF "rtypes" \in DOMAIN c /\ \E i \in 1..Len(c.rtypes) : c.rtypes[i] # c.want_type THEN "C19.read-returned-another-string-type-than-the-items-have"
   ELSE "ok"
 WriteVerdict(c) ==
   IF c.got # c.writes THEN "C19.write-is-not-one-item-per-call"
